@@ -31,8 +31,9 @@ OPEN_STATEMENTS = [
     '(hc_boson_term_sound, hc_quad_term_sound) and that the formal involution is an anti-homomorphism on generators; '
     'that this involution is the Hilbert-space adjoint, and injectivity of the key map, are Corr + oracle only',
     'commutator_def / anticommutator_def are proved for every term functional in the exact regime of the in-place '
-    'addition (hypothesis ExactAdd: no non-zero coefficient below EQ_TOLERANCE is pruned); double_commutator_def '
-    '(two nested normal_ordered calls) is Corr + oracle only',
+    'addition (hypothesis ExactAdd: no non-zero coefficient below EQ_TOLERANCE is pruned); double_commutator_def is '
+    'proved in every ring interpretation satisfying the CAR and on the Fock space of the Spec (generic path; '
+    'hypothesis: the result equals the tolerance-0 result)',
     'hopping shortcut: proved for one shared mode, no shared mode and both modes shared (hopping_shortcut_*), for '
     'hopping operators t (i^ j + j^ i) as in the docstrings',
     'dc_commutator_sound (diagonal-Coulomb commutator = generic commutator): the one-body / one-body helper is '
